@@ -1,7 +1,7 @@
-From Coq Require Import List NArith Bool Arith Permutation.
+From Coq Require Import List NArith Bool Arith Permutation Lia.
 Import ListNotations.
 Require Import MV.Common.Interleave MV.C05.Model MV.C05.Spec MV.C05.Exec.
-Require Import MV.C05.ProofsSeq MV.C05.ProofsInv MV.C05.ProofsCor.
+Require Import MV.C05.ProofsSeq MV.C05.ProofsInv MV.C05.ProofsCor MV.C05.ProofsUniq MV.C05.ProofsCons MV.C05.ProofsProg.
 Local Open Scope nat_scope.
 Require Import MV.C05.Properties.
 
@@ -19,9 +19,9 @@ Check (C05_sequential_run_unique : forall B s l s1 l1 s2 l2,
   steps B s l s1 l1 -> steps B s l s2 l2 -> step B true true s1 l1 = None -> step B true true s2 l2 = None ->
   s1 = s2 /\ l1 = l2).
 Print Assumptions C05_sequential_run_unique.
-Check (C05_conservation_partial : forall B fxc ps sched, 1 <= B ->
+Check (C05_protocol_invariant_every_schedule : forall B fxc ps sched, 1 <= B ->
   Inv B (fst (exec (step B true fxc) site (init_config ps) sched))).
-Print Assumptions C05_conservation_partial.
+Print Assumptions C05_protocol_invariant_every_schedule.
 Check (C05_invariant_every_step : forall B fxc, 1 <= B -> step_preserves (step B true fxc) (Inv B)).
 Print Assumptions C05_invariant_every_step.
 Check (C05_published_slot_is_written : forall B fxc ps c b i, 1 <= B -> reach B fxc ps c ->
@@ -49,6 +49,53 @@ Check (C05_chain_acyclic_nonhead_full : forall B fxc ps c, 1 <= B -> reach B fxc
   exists ids, Chain (heap (fst c)) (tail (fst c)) ids /\
               (forall b d, In b ids -> bnxt (getb (heap (fst c)) b) = Some d -> B <= bw (getb (heap (fst c)) d))).
 Print Assumptions C05_chain_acyclic_nonhead_full.
+Check (C05_uniqueness_invariant_every_schedule : forall B fxc ps sched, 1 <= B ->
+  All B (fst (exec (step B true fxc) site (init_config ps) sched))).
+Print Assumptions C05_uniqueness_invariant_every_schedule.
+Check (C05_no_identity_cleared_twice : forall B fxc ps c id, 1 <= B -> reach B fxc ps c ->
+  sumf (cnt id) (snd c) <= 1).
+Print Assumptions C05_no_identity_cleared_twice.
+Check (C05_clears_of_one_thread_have_no_duplicates : forall B fxc ps c u l, 1 <= B -> reach B fxc ps c ->
+  nth_error (snd c) u = Some l -> NoDup (map vid (cleared_local l))).
+Print Assumptions C05_clears_of_one_thread_have_no_duplicates.
+Check (C05_clears_of_two_threads_are_disjoint : forall B fxc ps c u v l l' x x', 1 <= B -> reach B fxc ps c ->
+  u <> v -> nth_error (snd c) u = Some l -> nth_error (snd c) v = Some l' ->
+  In x (cleared_local l) -> In x' (cleared_local l') -> vid x = vid x' -> False).
+Print Assumptions C05_clears_of_two_threads_are_disjoint.
+Check (C05_detached_chains_have_one_owner : forall B fxc ps c, 1 <= B -> reach B fxc ps c -> Q4 c).
+Print Assumptions C05_detached_chains_have_one_owner.
+Check (C05_identity_in_one_slot : forall B fxc ps c, 1 <= B -> reach B fxc ps c -> Q3 c).
+Print Assumptions C05_identity_in_one_slot.
+Check (C05_no_fabrication : forall B fxc ps sched, 1 <= B ->
+  let c := fst (exec (step B true fxc) site (init_config ps) sched) in
+  (forall b i x, slot (heap (fst c)) b i = Some x -> genuine ps x) /\
+  (forall x, cleared_in (snd c) x -> genuine ps x)).
+Print Assumptions C05_no_fabrication.
+Check (C05_conservation_except_late_claim : forall B fxc ps sched u l p k v, 1 <= B ->
+  let c := fst (exec (step B true fxc) site (init_config ps) sched) in
+  late (fst c) = false ->
+  nth_error (snd c) u = Some l -> nth_error ps u = Some p ->
+  k < N.to_nat (cidx l) -> nth_error p k = Some (CPush v) ->
+  exists b i, slot (heap (fst c)) b i = Some (N.of_nat u, N.of_nat k, v) /\ pub (heap (fst c)) b i /\
+              (forall b' i' x', slot (heap (fst c)) b' i' = Some x' -> vid x' = (N.of_nat u, N.of_nat k) -> b' = b /\ i' = i) /\
+              (~ Owned c b -> cleared_in (snd c) (N.of_nat u, N.of_nat k, v)) /\
+              (cleared_in (snd c) (N.of_nat u, N.of_nat k, v) -> ~ Owned c b) /\
+              sumf (cnt (N.of_nat u, N.of_nat k)) (snd c) <= 1).
+Print Assumptions C05_conservation_except_late_claim.
+Check (C05_published_partition : forall B fxc ps sched, 1 <= B ->
+  let c := fst (exec (step B true fxc) site (init_config ps) sched) in
+  late (fst c) = false ->
+  (forall b i x, slot (heap (fst c)) b i = Some x -> pub (heap (fst c)) b i -> ~ Owned c b -> cleared_in (snd c) x) /\
+  (forall x, cleared_in (snd c) x ->
+             exists b i, slot (heap (fst c)) b i = Some x /\ ~ Owned c b /\
+                         forall b' i' x', slot (heap (fst c)) b' i' = Some x' -> vid x' = vid x -> b' = b /\ i' = i) /\
+  (forall id, sumf (cnt id) (snd c) <= 1) /\
+  (forall d, d < length (heap (fst c)) -> ~ Owned c d -> complete B (heap (fst c)) d)).
+Print Assumptions C05_published_partition.
+Check (C05_conservation_on_model_runs : forall c, known_class c = None ->
+  let cf := fst (run_gen BS true true c) in
+  late (fst cf) = false /\ AllK BS cf /\ R (fst c) cf).
+Print Assumptions C05_conservation_on_model_runs.
 Check (C05_late_claim_refutes : exists c, known_class c = Some 1%N /\ spec_ok c (run_case c) = false).
 Print Assumptions C05_late_claim_refutes.
 Check (C05_handover_refuted_before_fix : late_claim_gen 2 false true handover_case = false /\ spec_gen 2 false true handover_case = false /\
